@@ -135,6 +135,16 @@ type kreg struct {
 
 // casterSeqCheck: the sequential counter-with-poison model (DESIGN A.3).
 func casterSeqCheck(r *vrt.Result) string {
+	if r.Status == vrt.StSteps {
+		for _, e := range r.Events {
+			if e.Kind == "close-c" {
+				// e.g. Add(MaxInt32); close(C); Send (panics); Add(-MaxInt32): the deregistration
+				// drains 2^31-1 receives from the closed channel - finite, but beyond the step
+				// horizon of one execution. Inconclusive, not an alarm.
+				return ""
+			}
+		}
+	}
 	if m := baseCheck(r, true, true, true); m != "" {
 		return m
 	}
